@@ -7,6 +7,7 @@
   once the task model exists. The cycle test is compared with petgraph on every generated input.
 -/
 import AnthemModel.Model.Analyze
+import AnthemModel.Model.External
 namespace Anthem.C11
 open Asp
 
@@ -105,6 +106,115 @@ theorem choice_private_is_recursion (p : Program) (priv : List Pred) (a : Asp.At
     hasPrivateRecursion p priv = true := by
   simp only [hasPrivateRecursion, Bool.or_eq_true, List.any_eq_true]
   exact Or.inl ⟨_, hr, by simpa using ha⟩
+
+/-! ## enforcement before any obligation is emitted -/
+
+theorem programError_none {t : ExternalTask} {p : Program} {priv : List Pred}
+    (h : programError t p priv = none) :
+    (isTight p = true ∨ t.bypassTightness = true) ∧ hasPrivateRecursion p priv = false ∧
+      ∀ q ∈ t.userGuide.inputs, q ∉ p.headPreds := by
+  unfold programError at h
+  split at h
+  · cases h
+  · rename_i h1
+    split at h
+    · cases h
+    · rename_i h2
+      split at h
+      · cases h
+      · rename_i h3
+        refine ⟨?_, by simpa using h2, ?_⟩
+        · simp only [Bool.and_eq_true, Bool.not_eq_true', not_and, Bool.not_eq_false] at h1
+          cases ht : isTight p
+          · exact Or.inr (h1 ht)
+          · exact Or.inl rfl
+        · intro q hq hmem
+          apply h3
+          simp only [List.any_eq_true, decide_eq_true_eq]
+          exact ⟨q, hq, hmem⟩
+
+/-- **Enforcement.** If an external-equivalence task yields problems (for any pass bound), then
+    every applicability condition holds: tau* representation, input and output declarations
+    disjoint, the program tight (or `--bypass-tightness`), free of private recursion, no input
+    predicate in a rule head, placeholders declared once, user-guide assumptions over input
+    predicates only — and the same for a specification program, or for a specification: its
+    assumptions mention no output predicate and only inputs / the program's private predicates,
+    and only assumption / spec / definition roles occur. -/
+theorem external_ok_implies (t : ExternalTask) (fuel : Nat) (ps : List Problem)
+    (h : externalProblems t fuel = .ok ps) :
+    t.rep = .tauStar ∧ (∀ q ∈ t.userGuide.inputs, q ∉ t.userGuide.outputs) ∧
+    ((isTight t.program = true ∨ t.bypassTightness = true) ∧
+      hasPrivateRecursion t.program t.progPrivate = false ∧
+      ∀ q ∈ t.userGuide.inputs, q ∉ t.program.headPreds) ∧
+    allUnique (t.userGuide.placeholders.map (·.name)) = true ∧
+    assumptionError t [] t.userGuide.formulas = none ∧
+    (match t.specification with
+      | .inl p => (isTight p = true ∨ t.bypassTightness = true) ∧
+          hasPrivateRecursion p t.specPrivate = false ∧ ∀ q ∈ t.userGuide.inputs, q ∉ p.headPreds
+      | .inr s => (∀ f ∈ s, f.role = .assumption → ∀ q ∈ f.formula.preds, q ∉ t.userGuide.outputs) ∧
+          assumptionError t t.progPrivate s = none ∧
+          ∀ f ∈ s, f.role = .assumption ∨ f.role = .spec ∨ f.role = .definition) := by
+  have hpre : precheck t = none := by
+    unfold externalProblems at h
+    cases hp : precheck t with
+    | none => rfl
+    | some e => simp [hp] at h
+  unfold precheck at hpre
+  simp only at hpre
+  split at hpre
+  · cases hpre
+  · rename_i hrep
+    split at hpre
+    · cases hpre
+    · rename_i hov
+      split at hpre
+      · cases hpre
+      · rename_i hprog
+        split at hpre
+        · cases hpre
+        · rename_i hph
+          split at hpre
+          · cases hpre
+          · rename_i hass
+            refine ⟨Classical.not_not.mp hrep, ?_, programError_none hprog, by simpa using hph, hass, ?_⟩
+            · intro q hq hmem
+              apply hov
+              simp only [List.any_eq_true, decide_eq_true_eq]
+              exact ⟨q, hq, hmem⟩
+            · cases hs : t.specification with
+              | inl p =>
+                simp only [hs] at hpre ⊢
+                exact programError_none hpre
+              | inr s =>
+                simp only [hs] at hpre ⊢
+                split at hpre
+                · cases hpre
+                · rename_i hout
+                  split at hpre
+                  · cases hpre
+                  · rename_i hass2
+                    split at hpre
+                    · cases hpre
+                    · rename_i hroles
+                      refine ⟨?_, hass2, ?_⟩
+                      · intro f hf hr q hq hmem
+                        apply hout
+                        simp only [List.any_eq_true, Bool.and_eq_true, decide_eq_true_eq]
+                        exact ⟨f, hf, hr, q, hq, hmem⟩
+                      · intro f hf
+                        simp only [List.any_eq_true, Bool.not_eq_true', Bool.or_eq_false_iff,
+                          decide_eq_false_iff_not, not_exists, not_and] at hroles
+                        have := hroles f hf
+                        by_cases h1 : f.role = .assumption
+                        · exact Or.inl h1
+                        · by_cases h2 : f.role = .spec
+                          · exact Or.inr (Or.inl h2)
+                          · exact Or.inr (Or.inr (Classical.not_not.mp (this ⟨h1, h2⟩)))
+
+/-- … and on any violated check nothing is emitted: the result is an error. -/
+theorem external_err_of_precheck (t : ExternalTask) (fuel : Nat) (e : TaskError)
+    (h : precheck t = some e) : externalProblems t fuel = .err e := by
+  simp [externalProblems, h]
 
 /-- Non-vacuity: negative dependencies do not count for tightness, positive ones do. -/
 example : isTight [⟨.basic ⟨"a", []⟩, [.lit ⟨.neg, ⟨"a", []⟩⟩]⟩] = true := by decide
